@@ -1182,6 +1182,19 @@ def check_C18(tier, seed, replay):
     }
     if not model_finds:
         raise ToolError("vacuity: TLC no longer finds the stale-destination flaw in the implementation-shaped model")
+    if tier == "thorough" and not replay:
+        # the intended protocol satisfies Fresh / FailSafe / Untouched for histories of ANY length (TLAPS, the very
+        # definitions TLC checks up to the depth bound: module BuildProtocol)
+        import re
+        try:
+            p_ = subprocess.run(["tlapm", "--threads", "8", "--cleanfp", "-I", "..", "BuildProtocolProofs.tla"],
+                                cwd=os.path.join(vlib.SPEC, "proofs"), stdout=subprocess.PIPE, stderr=subprocess.STDOUT, text=True, timeout=1200)
+            m = re.search(r"All (\d+) obligations? proved", p_.stdout)
+            res.coverage["tlaps_build_protocol"] = ({"obligations": int(m.group(1)), "proved": int(m.group(1)),
+                                                    "theorems": ["FreshAlways", "FailSafeAlways", "UntouchedAlways"]} if m
+                                                   else {"failed": p_.stdout[-400:]})
+        except (OSError, subprocess.TimeoutExpired) as ex:
+            res.coverage["tlaps_build_protocol"] = {"failed": str(ex)}
     res.assumptions = ["the expected bytes are header + prefix + code compiled afresh through the library (and rustfmt)",
                        "directory mode is replayed with one grammar file; the model is the single-file protocol"]
     return res
